@@ -76,6 +76,16 @@ func VerifC11Driver() {
 	var kept []keptTree
 	var iters []keptIter
 	kept = append(kept, keptTree{tree, model.Snapshot()})
+	// optional concrete committed pre-state: keys that are prefixes of each other
+	if pre := vnd.Param("PRE", 0); pre > 0 {
+		for i, k := range []string{"", "a", "ab", "b"}[:pre] {
+			txn.Insert([]byte(k), uint64(100+i))
+			model.Put([]byte(k), uint64(100+i))
+		}
+		tree = txn.CommitAndNotify()
+		kept = append(kept, keptTree{tree, model.Snapshot()})
+		txn = tree.Txn()
+	}
 
 	var menu []int
 	for o := 0; o < numOps; o++ {
